@@ -11,7 +11,9 @@ PROPERTY = "C10"
 LEVEL = "exploration"
 TIMEOUT = 300
 BUDGET = {"quick": 200, "thorough": 1800}
-RULE = ("Differential: the same generated source is compiled by the real compiler with optimisation (constant "
+RULE = ("[strata added in the build: commuted operand pairs for all 11 operators, bundle CSE-key variants, gated cells "
+        "sharing one enable expression; names observable in only one of the two builds are differences] "
+        "Differential: the same generated source is compiled by the real compiler with optimisation (constant "
         "propagation, CSE, MST wiring) and with --no-optimize; both blueprints are executed in the circuit model "
         "for the same boundary-biased valuations (stateless strata of C01/C02/C06 plus strata aimed at the "
         "optimiser: repeated sub-expressions differing in exactly one of operator / operand / output type / "
